@@ -476,7 +476,17 @@ def run(ctx, repo, tier):
         if isinstance(loop, ast.For) and call.args and isinstance(call.args[0], ast.Name) and isinstance(loop.target, ast.Name) \
                 and call.args[0].id == loop.target.id:
             k = oa_m.expr_kind.get(id(loop.iter))
-            if k is not None and k.order == DESC:
+            outer = [lp for lp in loops[:-1] if isinstance(lp, ast.For)]
+            onames = {x.id for lp in outer for x in ast.walk(lp.target) if isinstance(x, ast.Name)}
+            if outer and onames & {x.id for x in ast.walk(loop.iter) if isinstance(x, ast.Name)}:
+                # the pops are issued batch by batch (one batch per group): whatever the order inside a batch, the positions of a later
+                # batch were computed before the earlier batch shifted the list, and groups may interleave
+                ctx.violate("ORD", "C13.merge.pops", "positions are popped group by group with the positions computed beforehand: a batch "
+                            "shifts the positions of every later batch that lies above it (descending inside one group does not make the "
+                            "whole sequence descending)", fm.where,
+                            f"for {src(outer[-1].target)} in {src(outer[-1].iter)}: for {src(loop.target)} in {src(loop.iter)}: {tgt}.pop(...)",
+                            witness="e.g. 7 cells, all_to_join=[[0,4],[1,2]]: popping 2 for the second group first moves row 4 to position 3")
+            elif k is not None and k.order == DESC:
                 ctx.ok("ORD", "C13.merge.pops", "positions are popped in descending order (earlier pops do not shift later ones)",
                        fm.where, src(loop.iter), derived=f"{k.why}")
             elif k is not None and k.order in (ASC, UNORDERED, SETK):
